@@ -44,6 +44,9 @@ struct Bh {
     preset_first: bool,
     /// a (no-op) listener is registered for every event type
     listeners: bool,
+    /// one poll per history may happen in a task tick whose cooperative budget is used up
+    /// (tokio's semaphore then answers Pending although a permit is free)
+    starved_poll: bool,
 }
 
 struct X {
@@ -102,7 +105,7 @@ impl Scenario for Bh {
         self.prop
     }
     fn label(&self) -> String {
-        format!("bulkhead max={} max_wait={:?} callers={}{}{}", self.max, self.max_wait, self.callers, if self.late_ticks > 0 { " late-polls" } else { "" }, if self.shave_us > 0 { format!(" minus {}us", self.shave_us) } else if self.single_handle { " one-handle".to_string() } else if self.keep_done { " finished-futures-kept".to_string() } else if self.sync_panic_first { " first-inner-call-panics-in-call()".to_string() } else if self.preset_first { " builder_order=small()_preset_first".to_string() } else if self.listeners { " with-listeners".to_string() } else { String::new() })
+        format!("bulkhead max={} max_wait={:?} callers={}{}{}", self.max, self.max_wait, self.callers, if self.late_ticks > 0 { " late-polls" } else { "" }, if self.shave_us > 0 { format!(" minus {}us", self.shave_us) } else if self.single_handle { " one-handle".to_string() } else if self.keep_done { " finished-futures-kept".to_string() } else if self.sync_panic_first { " first-inner-call-panics-in-call()".to_string() } else if self.preset_first { " builder_order=small()_preset_first".to_string() } else if self.listeners { " with-listeners".to_string() } else if self.starved_poll { " one-budget-starved-poll".to_string() } else { String::new() })
     }
     fn callers(&self) -> usize {
         self.callers
@@ -157,14 +160,27 @@ impl Scenario for Bh {
             Action::Tick => c.ticks < self.max_ticks,
             Action::Drop(_) => c.drops < self.max_drops,
             Action::Complete(_, Out::Panic) => c.panics < self.max_panics,
+            Action::Ctl(_) => c.ctls < 1,
             _ => true,
         }
+    }
+    fn ctl_actions(&self, w: &World, _x: &X) -> Vec<u8> {
+        // Ctl(0): the next poll finds the task's cooperative budget used up
+        if self.starved_poll && !w.starve_next_poll && (0..w.callers.len()).any(|c| w.pollable(c)) {
+            vec![0]
+        } else {
+            vec![]
+        }
+    }
+    fn apply_ctl(&self, w: &mut World, _x: &mut X, _ctl: u8) {
+        w.starve_next_poll = true;
     }
     fn before(&self, w: &World, x: &mut X, a: &Action) {
         x.first_poll_pre = None;
         if let Action::Poll(c) = a {
             let c = *c as usize;
-            if w.callers[c].polls == 0 {
+            // (a starved first poll cannot take the slot: "admitted at once" is not judged for it)
+            if w.callers[c].polls == 0 && !w.starve_next_poll {
                 x.first_poll_pre = Some((c, w.inner_live(), queued(w).len()));
             }
         }
@@ -343,10 +359,14 @@ fn configs(prop: &'static str, tier: Tier) -> Vec<Bh> {
     let mut v = vec![];
     // listeners registered for every event type
     for max_wait in [None, Some(0u64), Some(20)] {
-        v.push(Bh { prop, max: 1, max_wait, callers: 3, max_ticks: tier.pick(3, 4), max_drops: 1, max_panics: 1, late_ticks: 0, shave_us: 0, single_handle: false, grid: 10, keep_done: false, sync_panic_first: false, preset_first: false, listeners: true });
+        v.push(Bh { prop, max: 1, max_wait, callers: 3, max_ticks: tier.pick(3, 4), max_drops: 1, max_panics: 1, late_ticks: 0, shave_us: 0, single_handle: false, grid: 10, keep_done: false, sync_panic_first: false, preset_first: false, listeners: true, starved_poll: false });
+    }
+    // one budget-starved poll per history
+    for max_wait in [Some(0u64), Some(20)] {
+        v.push(Bh { prop, max: 1, max_wait, callers: 3, max_ticks: tier.pick(3, 4), max_drops: 0, max_panics: 0, late_ticks: 0, shave_us: 0, single_handle: false, grid: 10, keep_done: false, sync_panic_first: false, preset_first: false, listeners: false, starved_poll: true });
     }
     // a wait of Duration::MAX (the timer cannot represent the deadline)
-    v.push(Bh { prop, max: 1, max_wait: Some(WAIT_FOR_EVER), callers: 3, max_ticks: tier.pick(2, 3), max_drops: 1, max_panics: 0, late_ticks: 0, shave_us: 0, single_handle: false, grid: 10, keep_done: false, sync_panic_first: false, preset_first: false, listeners: false });
+    v.push(Bh { prop, max: 1, max_wait: Some(WAIT_FOR_EVER), callers: 3, max_ticks: tier.pick(2, 3), max_drops: 1, max_panics: 0, late_ticks: 0, shave_us: 0, single_handle: false, grid: 10, keep_done: false, sync_panic_first: false, preset_first: false, listeners: false, starved_poll: false });
     for max in [1usize, 2] {
         for max_wait in [None, Some(0), Some(20), Some(25)] {
             let callers = tier.pick(3, 4).max(max + 1);
@@ -366,39 +386,40 @@ fn configs(prop: &'static str, tier: Tier) -> Vec<Bh> {
                 sync_panic_first: false,
                 preset_first: false,
                 listeners: false,
+                starved_poll: false,
             });
         }
     }
     // a wait in the seconds range (2.02 s, explored on a 1.01 s grid): whole seconds plus a
     // sub-second part
-    v.push(Bh { prop, max: 1, max_wait: Some(2020), callers: 3, max_ticks: tier.pick(3, 4), max_drops: 1, max_panics: 0, late_ticks: 0, shave_us: 0, single_handle: false, grid: 1010, keep_done: false, sync_panic_first: false, preset_first: false, listeners: false });
+    v.push(Bh { prop, max: 1, max_wait: Some(2020), callers: 3, max_ticks: tier.pick(3, 4), max_drops: 1, max_panics: 0, late_ticks: 0, shave_us: 0, single_handle: false, grid: 1010, keep_done: false, sync_panic_first: false, preset_first: false, listeners: false, starved_poll: false });
     // the builder calls in another order: reject_when_full() first, the wait (or a second
     // reject_when_full()) after it, the limit last - the later call wins
     for max_wait in [Some(0u64), Some(20)] {
-        v.push(Bh { prop, max: 1, max_wait, callers: 3, max_ticks: tier.pick(3, 4), max_drops: 1, max_panics: 0, late_ticks: 0, shave_us: 0, single_handle: false, grid: 10, keep_done: false, sync_panic_first: false, preset_first: true, listeners: false });
+        v.push(Bh { prop, max: 1, max_wait, callers: 3, max_ticks: tier.pick(3, 4), max_drops: 1, max_panics: 0, late_ticks: 0, shave_us: 0, single_handle: false, grid: 10, keep_done: false, sync_panic_first: false, preset_first: true, listeners: false, starved_poll: false });
     }
     // the first inner call panics inside call() itself
     for max_wait in [None, Some(20u64)] {
-        v.push(Bh { prop, max: 1, max_wait, callers: 3, max_ticks: tier.pick(2, 3), max_drops: 1, max_panics: 0, late_ticks: 0, shave_us: 0, single_handle: false, grid: 10, keep_done: false, sync_panic_first: true, preset_first: false, listeners: false });
+        v.push(Bh { prop, max: 1, max_wait, callers: 3, max_ticks: tier.pick(2, 3), max_drops: 1, max_panics: 0, late_ticks: 0, shave_us: 0, single_handle: false, grid: 10, keep_done: false, sync_panic_first: true, preset_first: false, listeners: false, starved_poll: false });
     }
     // finished futures stay alive until dropped explicitly
     for max_wait in [None, Some(20u64)] {
-        v.push(Bh { prop, max: 1, max_wait, callers: 3, max_ticks: tier.pick(2, 3), max_drops: tier.pick(2, 3), max_panics: 0, late_ticks: 0, shave_us: 0, single_handle: false, grid: 10, keep_done: true, sync_panic_first: false, preset_first: false, listeners: false });
+        v.push(Bh { prop, max: 1, max_wait, callers: 3, max_ticks: tier.pick(2, 3), max_drops: tier.pick(2, 3), max_panics: 0, late_ticks: 0, shave_us: 0, single_handle: false, grid: 10, keep_done: true, sync_panic_first: false, preset_first: false, listeners: false, starved_poll: false });
     }
     // all callers through the one original handle (no clone alive between calls)
     for max_wait in [None, Some(20u64)] {
-        v.push(Bh { prop, max: 1, max_wait, callers: 3, max_ticks: tier.pick(3, 4), max_drops: 1, max_panics: 0, late_ticks: 0, shave_us: 0, single_handle: true, grid: 10, keep_done: false, sync_panic_first: false, preset_first: false, listeners: false });
+        v.push(Bh { prop, max: 1, max_wait, callers: 3, max_ticks: tier.pick(3, 4), max_drops: 1, max_panics: 0, late_ticks: 0, shave_us: 0, single_handle: true, grid: 10, keep_done: false, sync_panic_first: false, preset_first: false, listeners: false, starved_poll: false });
     }
     // waits with a sub-millisecond part: 0.5 ms and 19.75 ms
     for (max_wait, shave_us) in [(1u64, 500u64), (20, 250)] {
-        v.push(Bh { prop, max: 1, max_wait: Some(max_wait), callers: 3, max_ticks: tier.pick(3, 4), max_drops: 1, max_panics: 0, late_ticks: 0, shave_us, single_handle: false, grid: 10, keep_done: false, sync_panic_first: false, preset_first: false, listeners: false });
+        v.push(Bh { prop, max: 1, max_wait: Some(max_wait), callers: 3, max_ticks: tier.pick(3, 4), max_drops: 1, max_panics: 0, late_ticks: 0, shave_us, single_handle: false, grid: 10, keep_done: false, sync_panic_first: false, preset_first: false, listeners: false, starved_poll: false });
     }
     // a late executor: woken callers (permit handed over, wait deadline passed) are polled up to two ticks late
     for (max, max_wait) in [(1usize, Some(20u64)), (1, None), (2, Some(20))] {
         if tier == Tier::Quick && max == 2 {
             continue;
         }
-        v.push(Bh { prop, max, max_wait, callers: 3, max_ticks: tier.pick(4, 5), max_drops: tier.pick(1, 2), max_panics: tier.pick(0, 1), late_ticks: 2, shave_us: 0, single_handle: false, grid: 10, keep_done: false, sync_panic_first: false, preset_first: false, listeners: false });
+        v.push(Bh { prop, max, max_wait, callers: 3, max_ticks: tier.pick(4, 5), max_drops: tier.pick(1, 2), max_panics: tier.pick(0, 1), late_ticks: 2, shave_us: 0, single_handle: false, grid: 10, keep_done: false, sync_panic_first: false, preset_first: false, listeners: false, starved_poll: false });
     }
     v
 }
